@@ -560,7 +560,7 @@ end
 /-- Run the job at the head of the current batch (runtime.go:2875-2877). Returns true on abort. -/
 def runJob (prog : Prog) (fuel : Nat) : M Bool := do
   let k ← kget
-  match k.cur with
+  match k.jobs with
   | [] => return false
   | j :: _ =>
     let l := k.latches.length
@@ -586,19 +586,72 @@ def runJob (prog : Prog) (fuel : Nat) : M Bool := do
       | .throw e => doReject l e; return false        -- :181-185
       | .abort => return true
 
-/-- Runtime.leave() on the kernel's two buffers (explicit state passing); on abort the panic reaches the
-recover of RunProgram/runWrapped which calls leaveAbrupt.  Returns true iff aborted. -/
-def drainS (prog : Prog) : Nat → St → Bool × St
+/-- Runtime.leave() (runtime.go:2871-2881), explicit state passing.  `c` is the double buffer: the number of oldest
+jobs that form the batch being iterated (`jobs[i:]` of the inner `range` loop); `c = 0` is the outer loop test
+`for len(r.jobQueue) > 0` followed by the swap `jobs, r.jobQueue = r.jobQueue, jobs[:0]` (the batch := everything
+queued now).  On abort the panic reaches the recover of RunProgram/runWrapped which calls leaveAbrupt.
+Returns true iff aborted. -/
+def drainS (prog : Prog) : Nat → Nat → St → Bool × St
+  | 0, _, st => (true, { st with oof := true })
+  | n + 1, c, st =>
+    if st.rk.val.jobs.isEmpty then (false, st)
+    else
+      let c := if c = 0 then st.rk.val.jobs.length else c          -- swap
+      match (runJob prog 100000).run st with                        -- job()
+      | (true, st1) => (true, { st1 with rk := st1.rk.apply .leaveAbrupt })
+      | (false, st1) => drainS prog n (c - 1) st1
+
+/-- SPECIFICATION of the drain (ECMA-262 job queue): one FIFO queue, run the oldest job until none is left. -/
+def drainF (prog : Prog) : Nat → St → Bool × St
   | 0, st => (true, { st with oof := true })
   | n + 1, st =>
-    if st.rk.val.cur.isEmpty then
-      if st.rk.val.queue.isEmpty then (false, st)                    -- `for len(r.jobQueue) > 0` fails: return
-      else drainS prog n { st with rk := st.rk.apply .swap }         -- jobs, r.jobQueue = r.jobQueue, jobs[:0]
+    if st.rk.val.jobs.isEmpty then (false, st)
     else
-      match (runJob prog 100000).run st with                          -- job()
+      match (runJob prog 100000).run st with
       | (true, st1) => (true, { st1 with rk := st1.rk.apply .leaveAbrupt })
-      | (false, st1) => drainS prog n st1
+      | (false, st1) => drainF prog n st1
 
-def drain (prog : Prog) (n : Nat) : M Bool := fun st => drainS prog n st
+def drain (prog : Prog) (n : Nat) : M Bool := fun st => drainS prog n 0 st
+def drainSpec (prog : Prog) (n : Nat) : M Bool := fun st => drainF prog n st
+
+/-! ## Outermost calls (RunString / Go-side resolver), parametric in the drain loop -/
+
+/-- One outermost call into the runtime: run, then leave() / leaveAbrupt().  Returns the error kind. -/
+def runSegWith (dr : Prog → Nat → M Bool) (prog : Prog) (seg : Seg) : M String := do
+  match seg with
+  | .run b =>
+    match ← execBody prog 100000 b .undef with
+    | .abort => op .leaveAbrupt; return "int"
+    | .throw _ => if ← dr prog 100000 then return "int" else return "exc"
+    | .normal _ => if ← dr prog 100000 then return "int" else return "none"
+  | .go (.gnew k g) =>
+    let cap ← newCapM                                  -- Runtime.NewPromise, builtin_promise.go:628
+    setSlot k cap.promise
+    modify fun st => { st with gslots := setExt st.gslots g (some (cap.res, cap.rej)) none }
+    return "none"
+  | .go (.gres g v) =>
+    match (← get).gslots.getD g none with
+    | none => return "none"
+    | some (x, _) =>
+      let val ← evalV v .undef
+      match ← callFn prog 100000 x .undef [.v val] with     -- wrapPromiseReaction → runWrapped
+      | .abort => op .leaveAbrupt; return "int"
+      | _ => if ← dr prog 100000 then return "int" else return "none"
+  | .go (.grej g v) =>
+    match (← get).gslots.getD g none with
+    | none => return "none"
+    | some (_, y) =>
+      let val ← evalV v .undef
+      match ← callFn prog 100000 y .undef [.v val] with
+      | .abort => op .leaveAbrupt; return "int"
+      | _ => if ← dr prog 100000 then return "int" else return "none"
+
+/-- Whole program: all outermost calls in order; result = final state + error kind of every call. -/
+def runSegsWith (dr : Prog → Nat → M Bool) (prog : Prog) : List Seg → St → List String × St
+  | [], st => ([], st)
+  | s :: rest, st =>
+    let (e, st1) := (runSegWith dr prog s).run st
+    let (es, st2) := runSegsWith dr prog rest st1
+    (e :: es, st2)
 
 end GojaModel.C10
